@@ -18,6 +18,11 @@ RUNS = {
         {"name": "K6-version", "mode": "kver", "budget": (3000, 60000), "nontrivial": r"ok=1|rmsize=[1-9]", "keyfn": "generic"},
         {"name": "K6-negotiate", "mode": "kneg", "budget": (1500, 30000), "nontrivial": r"ok=1", "keyfn": "generic"},
     ],
+    "C20": [
+        {"name": "K8-qid", "mode": "kqid", "budget": (4000, 120000), "nontrivial": r"ok=0|q=9223|path=", "keyfn": "generic"},
+        {"name": "K8-mode-table", "mode": "kmode", "budget": (2000, 50000), "nontrivial": r"back=", "keyfn": "generic", "exhaustive": True},
+        {"name": "K8-mapper-concurrent", "mode": "kmapc", "budget": (30, 600), "nontrivial": r".", "keyfn": "generic"},
+    ],
     "C02": [
         {"name": "K2-framing", "mode": "k2", "budget": (1500, 40000), "nontrivial": r"recv\d+=(msg|proto)", "keyfn": "k2"},
     ],
@@ -26,6 +31,24 @@ RUNS = {
 NOT_YET = {}
 
 PROPS = {
+    "C20": {
+        "level_text": "Proof: encodeLikely is injective and < 2^63 (omega over the div/mod form); the fallback table of localToQid keeps an invariant "
+                      "(values distinct, > 2^63, keys distinct) under every lookup, from which stability (a pair keeps its path after any later "
+                      "lookups) and injectivity over arbitrary histories follow by induction; the same for the QID mapper with a shared generator; "
+                      "FileMode -> os.FileMode -> FileMode is the identity on all 7 x 4096 (type, permission) values (kernel-evaluated table over "
+                      "the regenerated Go constants) and QIDType follows the mode's type.",
+        "level_note": "Trusted: Lean kernel; arithmetic form of unix.Major/Minor for dev < 2^32 (tied by klikely on high-bit devices and large "
+                      "majors/minors); Fsimpl/Qid.lean, Fsimpl/Mode.lean hand-written, tied by K8 (exported encodeLikely/localToQid on chosen pairs "
+                      "with the process-global table followed by the model, exhaustive mode table against Go, sequential mapper). Partial: 'must "
+                      "never crash' under concurrent lookups is the Go runtime's map-race abort - observed by the concurrent kmapc run and by the "
+                      "lockset obligation, not provable in the model.",
+        "rule": "kqid: (dev, ino) pairs from 6 shapes (plain, high device bits, big minors, inodes around 2^39, random 32/39-bit, random 64-bit), "
+                "40% repeats of earlier pairs; mapper: 3 mappers sharing a generator, source paths from a small alphabet + random; kmode: all 28672 "
+                "valid modes + random os.FileMode values; kmapc: 8 goroutines x 400 lookups per round on shared mappers. Non-trivial: pair outside "
+                "the compact encoding / fallback path / any mapper or mode case.",
+        "assumptions": ["fewer than 2^63 distinct unlikely pairs / mapper paths (no counter wrap)", "I9: QID.Type = FileMode.QIDType()"],
+        "trusted_base": ["Fsimpl/Qid.lean, Fsimpl/Mode.lean: hand-written models of system_unix.go, qids.go, p9.go mode conversions"],
+    },
     "C11": {
         "level_text": "Proof: chunk() is modelled as the loop it is; Lean theorems give, for every chunk size >= 1, buffer length, offset and "
                       "content: WriteAt against an accepting backend returns n = len(p) with exactly the ideal in-order contiguous chunks each "
